@@ -2,7 +2,8 @@
    Only statements here; proofs live in coq/proofs/ConnLimitsP.v and ConnLimitsRefuted.v. *)
 From AQ Require Import lib.Base model.RangeSet model.StreamRecv model.ConnLimits model.ConnLimitsSpec
   gen.C07Consts proofs.RangeSetP proofs.ConnLimitsP proofs.ConnLimitsAdv proofs.ConnLimitsUsed proofs.ConnLimitsSim
-  proofs.ConnLimitsDeliv proofs.ConnLimitsMsd model.ConnLimitsCut proofs.ConnLimitsCutP.
+  proofs.ConnLimitsDeliv proofs.ConnLimitsMsd model.ConnLimitsCut proofs.ConnLimitsCutP proofs.ConnLimitsCutInv
+  proofs.ConnLimitsCutEq proofs.ConnLimitsCutOver.
 
 (* over_limit_closes, part 1: in EVERY state, a STREAM / RESET_STREAM / MAX_STREAM_DATA / STREAM_DATA_BLOCKED
    frame that would create a peer-initiated stream beyond the current MAX_STREAMS value is answered with
@@ -223,3 +224,125 @@ Theorem cut_pass_stream_frames_carry_enforced_limit : forall l, Forall (fun p =>
                      exists s', In (a, s') l' /\ v = sm_msd s' /\ sm_sent s' = v end) w.
 Proof. exact raise_streams_b_sound. Qed.
 Print Assumptions cut_pass_stream_frames_carry_enforced_limit.
+
+
+(* ---- histories that CONTAIN cut passes (round 5) ----
+   within_limit_never_accused_cut: within_limit_never_accused for EVERY sequence of the extended operations -- peer frames,
+   complete passes, passes cut by the builder after any number b of frames with any keep list (WriteCut b keepl), lost MAX_*
+   frames at any position, local opens, ... -- in ANY tree (whatever RAISE_BEFORE_START_FRAME is): a peer within every limit
+   written on the wire so far and final-size consistent is never answered with FLOW_CONTROL_ERROR / STREAM_LIMIT_ERROR /
+   FINAL_SIZE_ERROR.  Proof: the invariants CInv, Sim, MSim through the six stages of a cut pass (relation Pass of
+   proofs/ConnLimitsCutInv.v, reflexive and transitive) and discard.  Non-vacuity: xnever_accused_nonvacuous. *)
+Theorem within_limit_never_accused_cut : forall cl msd md cb ops,
+  0 <= msd -> 0 <= md -> 0 <= cb ->
+  xaccused (conn_init cl msd md cb) (peer_init msd md) ops = false.
+Proof. exact xnever_accused. Qed.
+Print Assumptions within_limit_never_accused_cut.
+
+(* buffer_bounded for the same histories (connection-level bound: max_data.value; buffer_bounded_cut below states it against the
+   advertised value) *)
+Theorem buffer_bounded_cut_value : forall cl msd md cb ops os c,
+  0 <= msd -> 0 <= md -> 0 <= cb ->
+  xrun (conn_init cl msd md cb) ops = (os, c) ->
+  (forall sid s, In (sid, s) (c_streams c) ->
+     0 <= r_start (sm_recv s) /\
+     Zlen (r_buf (sm_recv s)) <= r_highest (sm_recv s) - r_start (sm_recv s) /\
+     r_highest (sm_recv s) <= sm_msd s) /\
+  sum_buf (c_streams c) <= sum_hi (c_streams c) /\
+  sum_hi (c_streams c) + c_gone c <= l_used (c_data c) /\ 0 <= c_gone c /\
+  l_used (c_data c) <= l_value (c_data c) /\
+  Zlen (r_buf (c_crypto c)) <= MAX_PENDING_CRYPTO /\
+  (forall m, TLS_MESSAGE_CAP = Some m -> Zlen (c_tls c) < Z.max 4 m) /\
+  Zlen (c_chal c) <= MAX_REMOTE_CHALLENGES /\
+  (forall m, NETWORK_PATHS_CAP = Some m -> 1 <= m ->
+     Zlen (c_chal c) + sum_chal (c_paths c) <= m * MAX_REMOTE_CHALLENGES) /\
+  Zlen (c_lchal c) <= MAX_LOCAL_CHALLENGES /\
+  Zlen (c_retire c) <= Z.min (LOCAL_ACTIVE_CID_LIMIT * 4) MAX_PENDING_RETIRES /\
+  1 + Zlen (c_cid_avail c) <= LOCAL_ACTIVE_CID_LIMIT.
+Proof. exact buffer_bounded_xrun. Qed.
+Print Assumptions buffer_bounded_cut_value.
+
+(* enforced_is_advertised: in a tree that assigns a raised limit only next to the written frame (RAISE_BEFORE_START_FRAME = false,
+   probed from the source; /repo since 825d3fa) the value every check reads EQUALS the largest value written on the wire, at every
+   point of every history with cut passes: max_data, both stream-count limits, the limit of every stream that is live (receivable,
+   state not discarded), and the configured limit for a stream not created yet.  adv_ledger folds the peer's ledger over the
+   frames of all passes (transport parameters first; every MAX_* frame raises the entry to max(old, value)).
+   Proof: invariant AdvEq (proofs/ConnLimitsCutEq.v) through the six stages of a cut pass and discard. *)
+Theorem enforced_is_advertised : RAISE_BEFORE_START_FRAME = false -> forall cl msd md cb ops os c,
+  0 <= msd -> 0 <= md -> 0 <= cb ->
+  xrun (conn_init cl msd md cb) ops = (os, c) ->
+  enforced_eq_ledger c (adv_ledger (peer_init msd md) os).
+Proof. exact enforced_is_advertised_x. Qed.
+Print Assumptions enforced_is_advertised.
+
+(* the exact per-stream analogue of advertised_is_enforced, for histories of COMPLETE passes in ANY tree: every live stream's
+   max_stream_data_local equals the largest MAX_STREAM_DATA value written for it (the transport parameter if none), the three
+   connection-level limits likewise, and max_stream_data_local_sent is max_stream_data_local or 0 for every stream *)
+Theorem advertised_is_enforced_per_stream : forall cl msd md cb ops os c,
+  0 <= msd -> 0 <= md -> 0 <= cb ->
+  run (conn_init cl msd md cb) ops = (os, c) ->
+  enforced_eq_ledger c (adv_ledger (peer_init msd md) os) /\
+  Forall (fun q => sm_sent (snd q) = sm_msd (snd q) \/ sm_sent (snd q) = 0) (c_streams c).
+Proof. exact enforced_is_advertised_complete. Qed.
+Print Assumptions advertised_is_enforced_per_stream.
+
+(* in every state whose sent fields are in {value, 0} (all reachable ones) a complete pass IS a cut pass with enough budget and an
+   empty keep list *)
+Theorem complete_pass_is_cut_pass_with_room : forall c b, SentAll c -> pass_budget c <= b ->
+  write c = write_b c b [] /\ exists c1 w b', limit_stages c b = (c1, w, Some b').
+Proof. exact write_is_write_b. Qed.
+Print Assumptions complete_pass_is_cut_pass_with_room.
+
+(* buffer_bounded_cut: the buffering bounds against the ADVERTISED limits, for every history with cut passes (same tree):
+   the bytes committed to the connection window never exceed the largest MAX_DATA written (initial_max_data if none), each live
+   stream's highest offset never exceeds the largest MAX_STREAM_DATA written for it, the stream counts the largest MAX_STREAMS *)
+Theorem buffer_bounded_cut : RAISE_BEFORE_START_FRAME = false -> forall cl msd md cb ops os c,
+  0 <= msd -> 0 <= md -> 0 <= cb ->
+  xrun (conn_init cl msd md cb) ops = (os, c) ->
+  let p := adv_ledger (peer_init msd md) os in
+  sum_buf (c_streams c) <= sum_hi (c_streams c) /\
+  sum_hi (c_streams c) + c_gone c <= l_used (c_data c) /\ 0 <= c_gone c /\
+  l_used (c_data c) <= p_adv_data p /\
+  (forall sid s, sget sid (c_streams c) = Some s -> existsb (Z.eqb sid) (c_done c) = false -> can_receive c sid = true ->
+     0 <= r_start (sm_recv s) /\
+     Zlen (r_buf (sm_recv s)) <= r_highest (sm_recv s) - r_start (sm_recv s) /\
+     r_highest (sm_recv s) <= p_adv_msd p sid) /\
+  0 <= l_used (c_bidi c) <= p_adv_bidi p /\ 0 <= l_used (c_uni c) <= p_adv_uni p.
+Proof. exact buffer_bounded_advertised. Qed.
+Print Assumptions buffer_bounded_cut.
+
+(* over_advertised_limit_closes_cut -- the direction F-C07-4 broke, now for EVERY history with cut passes, on a tree that assigns a
+   raised limit only next to the written frame: after a prefix in which every STREAM / RESET_STREAM frame was within every limit
+   written on the wire so far and final-size consistent, the first frame BEYOND a limit written on the wire (stream count, that
+   stream's data limit, or the connection data limit charged with the bytes the peer has committed) is answered with
+   FLOW_CONTROL_ERROR or STREAM_LIMIT_ERROR whenever the endpoint gets as far as the limit checks (judged: well-formed, a stream
+   the peer may send on, state not discarded, stream exists or is the peer's to open); a frame that is not judged is ignored or
+   refused with FRAME_ENCODING_ERROR / STREAM_STATE_ERROR, never accepted (model/ConnLimitsCut.v: over_ok, xunanswered).
+   Proof: AdvEq (enforced = advertised) + XInv (max_data.used = the bytes the peer committed; every live peer-initiated stream is
+   below the advertised count).  over_advertised_limit_closes_refuted above keeps describing a tree that raises before
+   start_frame(); cut_pass_unanswered_witnesses: there the same three witnesses make xunanswered true. *)
+Theorem over_advertised_limit_closes_cut : RAISE_BEFORE_START_FRAME = false -> RESET_ADVANCES_HIGHEST = true ->
+  forall cl msd md cb ops, 0 <= msd -> 0 <= md -> 0 <= cb ->
+  xunanswered (conn_init cl msd md cb) (peer_init msd md) ops = false.
+Proof. exact xunanswered_init. Qed.
+Print Assumptions over_advertised_limit_closes_cut.
+
+Theorem cut_pass_unanswered_witnesses : RAISE_BEFORE_START_FRAME = true ->
+  xunanswered (conn_init false 3000 2000 0) (peer_init 3000 2000) w_cut_data = true /\
+  xunanswered (conn_init false 1000 4000 0) (peer_init 1000 4000) w_cut_stream = true /\
+  xunanswered (conn_init false 1000 4000 0) (peer_init 1000 4000) w_cut_count = true.
+Proof. exact cut_witnesses_unanswered. Qed.
+Print Assumptions cut_pass_unanswered_witnesses.
+
+(* in every state satisfying the invariants, frame by frame: what "beyond a limit written on the wire" forces *)
+Theorem over_advertised_stream_frame : forall c p ft sid off data r c', Sim c p -> AdvEq c p -> XInv c p ->
+  handle_stream c ft sid off data = (r, c') -> within_wire_limits (c_client c) p sid (off + Zlen data) = false ->
+  over_ok c sid (off + Zlen data) r = true.
+Proof. exact over_stream. Qed.
+Print Assumptions over_advertised_stream_frame.
+
+Theorem over_advertised_reset_frame : forall c p sid fs r c', Sim c p -> AdvEq c p -> XInv c p ->
+  handle_reset_stream c sid fs = (r, c') -> within_wire_limits (c_client c) p sid fs = false ->
+  over_ok c sid fs r = true.
+Proof. exact over_reset. Qed.
+Print Assumptions over_advertised_reset_frame.
